@@ -244,6 +244,30 @@ func (c *c06Run) readerResult(x, op string, n int, data []byte, cnt int, err err
 	return "ok " + hex.EncodeToString(data)
 }
 
+// S (C09, slot level): when neither stream lists, parks or awaits a slice, every slot the environment does not hold is back
+// in its free list
+func (c *c06Run) checkAllBack(when string) {
+	for _, e := range c.ends {
+		st := e.st
+		st.pendingData.Lock()
+		np := len(st.pendingData.unread)
+		st.pendingData.Unlock()
+		if st.sendBuf.sliceList.size() != 0 || st.recvBuf.sliceList.size() != 0 || st.recvBuf.pinnedList.size() != 0 ||
+			st.sendBuf.pinnedList.size() != 0 || np != 0 {
+			return
+		}
+	}
+	c.tags["quiescent-checked"] = true
+	bm := c.ends["a"].bm
+	for i, l := range bm.lists {
+		want := int(*l.cap) - len(c.held[i])
+		if got := int(*l.size); got != want {
+			c.setFail("slot-leak", fmt.Sprintf("%s: no stream buffer lists, parks or awaits a slice and the environment holds %d of class %d, yet its free list offers %d of %d slots",
+				when, len(c.held[i]), i, got, int(*l.cap)))
+		}
+	}
+}
+
 func (c *c06Run) afterReader(x string) {
 	e := c.ends[x]
 	// Len never exceeds what was flushed and not consumed
@@ -397,6 +421,17 @@ func c06Exec(ops []string, prop string) (res vResult) {
 				e.borrows = nil
 				e.st.ReleaseReadAndReuse()
 				return "ok" + c.suffix(x)
+			case f[0] == "cls" && len(f) == 2 && e != nil:
+				// the buffer side of Stream.clean (Close): what is in flight towards the stream, its receive buffer and its
+				// send buffer are all given back; the stream object stays registered so that the case can go on
+				e.borrows = nil
+				e.st.pendingData.clear()
+				e.st.recvBuf.recycle()
+				e.st.sendBuf.recycle()
+				e.pipeIn, e.moved, e.wbuf = nil, 0, nil
+				c.tags["stream-cleaned"] = true
+				c.checkAllBack("after cls " + x)
+				return "ok" + c.suffix(x)
 			case f[0] == "len" && len(f) == 2 && e != nil:
 				return "ok" + c.suffix(x)
 			case (f[0] == "take" || f[0] == "give") && len(f) == 3:
@@ -491,6 +526,7 @@ func c06Gen(r *rand.Rand, tier string, idx int, flavour string) []string {
 			return 1 + r.Intn(c+2)
 		}
 	}
+	pure := r.Intn(3) == 0 // only operations of the stream-pair system of the slot-accounting theorems (no Reserve / reuse / environment)
 	pending := map[string]int{"a": 0, "b": 0}  // bytes flushed towards x and not consumed
 	composed := map[string]int{"a": 0, "b": 0} // bytes composed by x and not flushed
 	n := 4 + r.Intn(40)
@@ -504,6 +540,9 @@ func c06Gen(r *rand.Rand, tier string, idx int, flavour string) []string {
 		case k < 5:
 			sz := sizeRel()
 			kind := []string{"wb", "wb", "rsv"}[r.Intn(3)]
+			if pure {
+				kind = "wb"
+			}
 			if sz == 0 && kind == "rsv" {
 				sz = 1
 			}
@@ -548,16 +587,25 @@ func c06Gen(r *rand.Rand, tier string, idx int, flavour string) []string {
 		case k < 16:
 			ops = append(ops, "rel "+rd)
 		case k < 17:
-			if r.Intn(3) == 0 {
+			if z := r.Intn(4); z == 0 && !pure {
 				ops = append(ops, "reuse "+rd)
+			} else if z == 1 {
+				cx := []string{w, rd}[r.Intn(2)]
+				ops = append(ops, "cls "+cx)
+				pending[cx], composed[cx] = 0, 0
 			} else {
 				ops = append(ops, "len "+rd)
 			}
-		case k < 19:
+		case k < 19 && !pure:
 			ops = append(ops, fmt.Sprintf("take %d %d", r.Intn(len(caps)), 1+r.Intn(4)))
-		default:
+		case !pure:
 			ops = append(ops, fmt.Sprintf("give %d %d", r.Intn(len(caps)), 1+r.Intn(4)))
+		default:
+			ops = append(ops, "rel "+rd)
 		}
+	}
+	if r.Intn(2) == 0 {
+		ops = append(ops, "cls a", "cls b")
 	}
 	return ops
 }
